@@ -97,7 +97,9 @@ CONDS_FN = ['"yes"[1:2]', '""', '","', 'name[5:]',    # text that is not one of 
             '[0, 1][v] == 1', 'v > 0 and NAMES[v - 1] == "ann"',
             'FrameCollector is not None', 'bool(v)', 'v in (1, 3, 5)',
             'format == "csv"', 'format != "csv"', 'id > 70 + v', 'len(filter) == v',
-            '(lambda: GLOBAL_LIMIT)() < v', 'any(x == GLOBAL_LIMIT for x in (v, 1))']
+            '(lambda: GLOBAL_LIMIT)() < v', 'any(x == GLOBAL_LIMIT for x in (v, 1))',
+            # a name bound inside one expression is that expression's own: the next one sees the frame again
+            '(v := v + 100) > 102', '(name := "ann") in NAMES']
 CONDS_MOD = ['GLOBAL_LIMIT == 3', 'GLOBAL_LIMIT > 5', 'helper is not None', 'len(NAMES) == 3', 'nope_zz', '',
              'uuid is not None', '"MOD_MARK" in dir()', 'format == "csv"', 'id < 5']
 EXPRS = ['ValueError("kept", v)', 'obj.problem',      # expressions whose *value* is an exception object (nothing is raised)
@@ -107,6 +109,7 @@ EXPRS = ['ValueError("kept", v)', 'obj.problem',      # expressions whose *value
          'undefined_zz', '1/0', 'fail_with("x")', 'raise_base()', 'str(flag)', '[v, GLOBAL_LIMIT]', 'abs(-v)',
          'format', 'id + v', 'filter', 'format.upper() + name',
          # a module global that is read only inside a nested scope of the expression
+         '(v := v * 1000)', '(brand_new := v + 1)', 'brand_new',
          'sum(x * GLOBAL_LIMIT for x in [1, 2, v])', '(lambda k: k + GLOBAL_LIMIT)(v)', '[helper(x) for x in (v, 0)]']
 EXPRS_INNER = ['captured', 'captured + v', 'use']
 EXPRS_METH = ['self.scale', 'self.scale * v', 'K.scale']
